@@ -93,8 +93,29 @@ func (w *world) fail(what string, err error) {
 	w.out.Violation(0, "api-error", fmt.Sprintf("%s: %v", what, err), nil)
 }
 
+// arg makes the byte slice handed to a database from a pooled name; spoil overwrites every slice handed out so far.
+// The write path hands the databases views into a row block that is reused for the next batch: a store that keeps
+// the caller's bytes instead of a copy changes its names behind its back.
+var handed [][]byte
+
+func arg(s string) []byte {
+	b := []byte(s)
+	handed = append(handed, b)
+	return b
+}
+
+func spoil() {
+	for _, b := range handed {
+		for i := range b {
+			b[i] = '#'
+		}
+	}
+	handed = handed[:0]
+}
+
 func (w *world) genMetric(ns, m int) (uint32, bool) {
-	id, err := w.meta.GenMetricID([]byte(nsPool[ns]), []byte(mPool[m]))
+	id, err := w.meta.GenMetricID(arg(nsPool[ns]), arg(mPool[m]))
+	spoil()
 	if err != nil {
 		w.fail("GenMetricID", err)
 		return 0, false
@@ -110,7 +131,8 @@ func (w *world) genMetric(ns, m int) (uint32, bool) {
 }
 
 func (w *world) genTagKey(mid uint32, k int, observed bool) (uint32, bool) {
-	id, err := w.meta.GenTagKeyID(metric.ID(mid), []byte(kPool[k]))
+	id, err := w.meta.GenTagKeyID(metric.ID(mid), arg(kPool[k]))
+	spoil()
 	if err != nil {
 		w.fail("GenTagKeyID", err)
 		return 0, false
@@ -131,7 +153,8 @@ func (w *world) genField(mid uint32, f int) {
 }
 
 func (w *world) genTagValue(kid uint32, v int) {
-	id, err := w.meta.GenTagValueID(tag.KeyID(kid), []byte(vPool[v]))
+	id, err := w.meta.GenTagValueID(tag.KeyID(kid), arg(vPool[v]))
+	spoil()
 	if err != nil {
 		w.fail("GenTagValueID", err)
 		return
@@ -139,7 +162,7 @@ func (w *world) genTagValue(kid uint32, v int) {
 	w.emit(genOp("tagvalue", int(kid), v+1), some(id))
 }
 
-func buildRow(ns, m int, ts [][2]int) *metric.StorageRow {
+func buildRow(ns, m int, ts [][2]int) (*metric.StorageRow, []byte) {
 	pm := &protoMetricsV1.Metric{
 		Name:      mPool[m],
 		Namespace: nsPool[ns],
@@ -158,8 +181,9 @@ func buildRow(ns, m int, ts [][2]int) *metric.StorageRow {
 		panic(err)
 	}
 	var br metric.StorageBatchRows
-	br.UnmarshalRows(buf.Bytes())
-	return br.Rows()[0]
+	raw := buf.Bytes()
+	br.UnmarshalRows(raw)
+	return br.Rows()[0], raw
 }
 
 // genSeries: tag keys and values of the row are created first by explicit calls, so that the index build inside
@@ -174,13 +198,16 @@ func (w *world) genSeries(ns, m int, mid uint32, t int, kn *known) {
 		kn.kids[[2]int{int(mid), kv[0]}] = kid
 		w.genTagValue(kid, kv[1])
 	}
-	row := buildRow(ns, m, ts)
+	row, raw := buildRow(ns, m, ts)
 	_, known, err := index.VerifLookupSeries(w.idx, metric.ID(mid), row.TagsHash())
 	if err != nil {
 		w.fail("VerifLookupSeries", err)
 		return
 	}
 	id, err := w.idx.GenSeriesID(metric.ID(mid), row)
+	for i := range raw { // the row's block is reused for the next batch
+		raw[i] = '#'
+	}
 	if err != nil {
 		w.fail("GenSeriesID", err)
 		return
@@ -262,7 +289,7 @@ func (w *world) lookTagValues(kid uint32) {
 
 func (w *world) lookSeries(ns, m int, mid uint32) {
 	for t := range tsPool {
-		row := buildRow(ns, m, tsPool[t])
+		row, _ := buildRow(ns, m, tsPool[t])
 		id, ok, err := index.VerifLookupSeries(w.idx, metric.ID(mid), row.TagsHash())
 		if err != nil {
 			w.fail("VerifLookupSeries", err)
